@@ -535,8 +535,20 @@ def rule_order_and_recursion(ctx: Ctx) -> None:  # noqa: C901, PLR0912
         keeps = any(isinstance(e, ast.Name) and e.id == kname for e in it["node"].elt.elts)
         ctx.add("4-recursive", mp, it["node"], keeps, "mapping keys are kept next to their converted values" if keeps else "mapping keys are dropped from the key: mappings with equal values collide", key="mapping keeps keys")
     else:
-        drops = [it for it in its if it["kind"] == "comp" and not any(isinstance(x, ast.Name) and x.id == getattr(it["target"].elts[0], "id", None) for x in ast.walk(getattr(it["node"], "elt", it["node"])))]
-        ctx.tri("4-recursive", mp, mp.node, False, bool(drops), "", "mapping keys are dropped from the key: mappings with equal values collide", "pairing of keys and converted values not recognised", key="mapping keeps keys")
+        from ..flow import dependence_text
+
+        def uses_key(it: dict) -> bool:
+            return any(isinstance(x, ast.Name) and x.id == getattr(it["target"].elts[0], "id", None) for x in ast.walk(getattr(it["node"], "elt", it["node"])))
+
+        comps = [it for it in its if it["kind"] == "comp"]
+        drops = [it for it in comps if not uses_key(it)]
+        # keys and converted values may be taken apart and zipped together again: the keys are kept when SOME comprehension over
+        # the pairs yields them and the returned value is computed from it
+        rets = [r.value for r in walk_no_nested(mp.node) if isinstance(r, ast.Return) and r.value is not None]
+        dep = " ".join(dependence_text(mp.node, r) for r in rets)
+        kept = [it for it in comps if uses_key(it) and norm(it["node"]) in dep]
+        ctx.tri("4-recursive", mp, (drops[0]["node"] if drops else mp.node), bool(kept), bool(drops) and not [it for it in comps if uses_key(it)], "mapping keys are kept next to their converted values",
+                "mapping keys are dropped from the key: mappings with equal values collide", "pairing of keys and converted values not recognised", key="mapping keeps keys")
     ctx.floor("3-order", n3, 9)
     ctx.floor("4-recursive", n4, 10)
 
